@@ -133,11 +133,19 @@ func checkMain(args []string) int {
 	return rc
 }
 
+var debugHooks = map[string]func(p *Prog, args []string){}
+
 func debugMain(args []string) {
 	p, err := Load(repoDir(), BuildConfig{})
 	if err != nil {
 		fmt.Println("ERR", err)
 		os.Exit(2)
+	}
+	if len(args) > 0 {
+		if h, ok := debugHooks[args[0]]; ok {
+			h(p, args[1:])
+			return
+		}
 	}
 	if len(args) == 0 {
 		for _, n := range sortedKeys(p.Funcs) {
@@ -234,6 +242,16 @@ func matrixMain() {
 				fns[t+":"+p.Name(a.Fn)] = true
 			}
 			fmt.Printf("    %-28s %s\n", rn, strings.Join(sortedKeys(fns), " "))
+		}
+	}
+}
+
+func init() {
+	debugHooks["mods"] = func(p *Prog, args []string) {
+		mi := p.mods()
+		for _, n := range args {
+			fn := p.Fn(n)
+			fmt.Println(n, "direct:", sortedKeys(mi.direct[fn]), "trans:", sortedKeys(mi.trans[fn]))
 		}
 	}
 }
